@@ -86,6 +86,7 @@ def cases(draw, name, tier):
     if name != "iter_sentinel":
         for s in case["srcs"]:
             s["fl"] = draw(st.sampled_from(["agen", "agen", "list", "iter", "seq", "reiter", "areiter", "aproxy", "sgen"]))
+            s["falsy"] = draw(st.integers(0, 4)) == 0  # (class-based flavours only: the object is falsy)
         for s in case["srcs"]:
             if s.get("alias") is not None and case["srcs"][s["alias"]]["fl"] == "list":
                 case["srcs"][s["alias"]]["fl"] = "iter"  # aliasing is about one-shot iterators
